@@ -622,3 +622,282 @@ Proof.
       - destruct (if enabled pc && negb (st || lim) then r_stop pr else st); [destruct Hin | eapply IH; eauto]. }
     split; intros Hin; apply H in Hin; destruct Hin; congruence.
 Qed.
+
+(* the event being post-processed by the consumer is the last one it emitted *)
+Definition invP (s : state) : Prop := forall e, cp s = CPost e -> exists t, emitted s = e :: t.
+
+Lemma invP_step c s l : invP s -> invP (step c s l).
+Proof.
+  intros HP. destruct l; cbn [step].
+  - unfold consumer_step. destruct (cp s) eqn:Ecp.
+    + destruct (queue s) as [|e q]; [intros e He; discriminate|].
+      destruct (stop s); intros e0 He; cbn in He; [discriminate|]. inversion He; subst. eexists; reflexivity.
+    + destruct (if counts_as_failure e then count_failure c (counter s) (limit s) else (counter s, limit s)) as [n lim].
+      intros e0 He. cbn in He. destruct ((if is_interrupt e || stop s then true else stop s) || lim); discriminate.
+    + intros e0 He. cbn in He.
+      destruct (forallb is_dead (workers s)); [destruct (drain_fix c)|]; discriminate.
+    + intros e0 He. cbn in He. destruct (queue s); discriminate.
+    + intros e0 He. rewrite Ecp in He. discriminate.
+  - destruct (nth_error (workers s) i) eqn:Ei; auto.
+    destruct (worker_step_flags c s i w) as (_ & _ & F3).
+    assert (F4 : emitted (worker_step c s i w) = emitted s).
+    { destruct w; cbn [worker_step]; auto.
+      - destruct (ops s); auto. destruct (build_err o); auto.
+      - destruct (has_to_stop s); auto.
+      - destruct c0; auto. destruct (cof c); auto.
+      - destruct script; auto. }
+    intros e He. rewrite F3 in He. rewrite F4. auto.
+  - exact HP.
+Qed.
+
+Lemma invP_init n os : invP (init n os).
+Proof. intros e He. discriminate. Qed.
+
+
+(* ------------------------------------------------------------------ *)
+(* Status consistency: the phase is at least as bad as its worst scenario *)
+(* ------------------------------------------------------------------ *)
+Definition hot (e : ev) : bool :=
+  match e with Interrupt => true | ScFinish _ INTERRUPTED => true | _ => false end.
+
+Definition wcool (w : wpc) : Prop :=
+  match w with WPut k => forallb (fun e => negb (hot e)) k = true | _ => True end.
+
+(* F: interruption events exist only after somebody asked to stop (or the limit was reached) *)
+Definition invF (s : state) : Prop :=
+  has_to_stop s = false ->
+  forallb (fun e => negb (hot e)) (queue s) = true /\ wforall wcool (workers s) /\
+  (forall e, cp s = CPost e -> hot e = false).
+
+Definition low_status (cur : option status) : Prop :=
+  match cur with None => True | Some st => srank st <= 2 end.
+
+Definition processed (s : state) : list ev :=
+  match cp s with CPost _ => tl (emitted s) | _ => emitted s end.
+
+Definition invE (s : state) : Prop :=
+  (cp s <> CDone -> low_status (cstatus s)) /\
+  (forall id st, In (ScFinish id st) (processed s) -> st <> SKIP ->
+     exists cur, cstatus s = Some cur /\ srank st <= srank cur) /\
+  (emitted s <> [] -> executed s = true).
+
+Lemma has_to_stop_mono_worker c s i w : has_to_stop (worker_step c s i w) = has_to_stop s.
+Proof. destruct (worker_step_flags c s i w) as (F1 & F2 & _). unfold has_to_stop. rewrite F1, F2. reflexivity. Qed.
+
+Lemma cool_final o st : st <> INTERRUPTED -> forallb (fun e => negb (hot e)) (final_script o st) = true.
+Proof. intros H. unfold final_script. destruct st; cbn; auto; try (destruct (end_skip o); reflexivity); try (exfalso; apply H; reflexivity). Qed.
+
+Definition st_calm (w : wpc) : Prop :=
+  match w with WCheck _ _ _ st | WSend _ _ _ st => st = SUCCESS \/ st = FAILURE | _ => True end.
+
+Lemma st_calm_next_case o rest st : st = SUCCESS \/ st = FAILURE -> st_calm (next_case o rest st).
+Proof. intros H. unfold next_case. destruct rest; cbn; auto. Qed.
+
+Lemma wcool_next_case o rest st : st = SUCCESS \/ st = FAILURE -> wcool (next_case o rest st).
+Proof.
+  intros H. unfold next_case. destruct rest; cbn; auto. apply cool_final. destruct H as [-> | ->]; discriminate.
+Qed.
+
+(* the accumulated status of a running test is SUCCESS or FAILURE: for every reachable state *)
+Lemma st_calm_worker c s i w : nth_error (workers s) i = Some w -> wforall st_calm (workers s) ->
+  wforall st_calm (workers (worker_step c s i w)).
+Proof.
+  intros Hi Hall. pose proof (Hall _ _ Hi) as Hme.
+  destruct w; cbn [worker_step]; cbn [workers set_worker put]; try (apply wforall_upd; cbn; auto; fail).
+  - destruct (has_to_stop s); cbn; apply wforall_upd; cbn; auto.
+  - destruct (ops s); [cbn; apply wforall_upd; cbn; auto|]. destruct (build_err o); cbn; apply wforall_upd; cbn; auto.
+  - cbn. apply wforall_upd; auto. apply st_calm_next_case. auto.
+  - destruct (has_to_stop s); cbn; apply wforall_upd; cbn; auto.
+  - cbn in Hme. destruct c0; [|destruct (cof c)|]; cbn; apply wforall_upd; auto; try apply st_calm_next_case; cbn; auto.
+  - destruct script; cbn; apply wforall_upd; cbn; auto. unfold after_put. destruct script; cbn; auto.
+  - exact Hall.
+Qed.
+
+Lemma invF_worker c s i w : nth_error (workers s) i = Some w -> wforall st_calm (workers s) -> invF s -> invF (worker_step c s i w).
+Proof.
+  intros Hi Hcalm HF. unfold invF. rewrite has_to_stop_mono_worker. intros Hs. destruct (HF Hs) as (F1 & F2 & F3).
+  destruct (worker_step_flags c s i w) as (_ & _ & Fcp). rewrite Fcp.
+  pose proof (F2 _ _ Hi) as Hme. pose proof (Hcalm _ _ Hi) as Hst.
+  assert (Hset : forall s' w', queue s' = queue s -> workers s' = upd i w' (workers s) -> wcool w' ->
+            forallb (fun e => negb (hot e)) (queue s') = true /\ wforall wcool (workers s') /\
+            (forall e, cp s = CPost e -> hot e = false)).
+  { intros s' w' E1 E2 Hw. rewrite E1, E2. split; auto. split; auto. apply wforall_upd; auto. }
+  assert (Hputq : forall e w', hot e = false -> wcool w' ->
+            forallb (fun e => negb (hot e)) (queue (set_worker (put s e) i w')) = true /\
+            wforall wcool (workers (set_worker (put s e) i w')) /\ (forall e, cp s = CPost e -> hot e = false)).
+  { intros e w' He Hw. cbn. rewrite forallb_app, F1. cbn. rewrite He. cbn. split; auto. split; auto. apply wforall_upd; auto. }
+  destruct w; cbn [worker_step].
+  - rewrite Hs. apply (Hset _ WFetch); auto; try exact I.
+  - destruct (ops s) as [|o rest]; [apply (Hset _ WDead); auto; try exact I|].
+    destruct (build_err o).
+    + apply (Hset _ (WPut [ScStart (op_id o); NonFatal (op_id o); ScFinish (op_id o) ERROR])); auto; reflexivity.
+    + apply (Hset _ (WStart o)); auto; try exact I.
+  - apply Hputq; auto. apply wcool_next_case. auto.
+  - rewrite Hs. apply (Hset _ (WSend o c0 rest st)); auto; try exact I.
+  - cbn in Hst. destruct c0; [|destruct (cof c)|].
+    + apply (Hset _ (next_case o rest st)); auto. apply wcool_next_case; auto.
+    + apply (Hset _ (next_case o rest FAILURE)); auto. apply wcool_next_case; auto.
+    + apply (Hset _ (WPut [ScFinish (op_id o) FAILURE])); auto; reflexivity.
+    + apply (Hset _ (WPut [NonFatal (op_id o); ScFinish (op_id o) ERROR])); auto; reflexivity.
+  - destruct script as [|e k]; [apply (Hset _ WLoop); auto; try exact I|].
+    cbn in Hme. apply andb_true_iff in Hme. destruct Hme as [He Hk]. apply negb_true_iff in He.
+    apply Hputq; auto. unfold after_put. destruct k; cbn; auto.
+  - auto.
+Qed.
+
+Lemma count_failure_limit_mono c e k l0 n lim :
+  (if counts_as_failure e then count_failure c k l0 else (k, l0)) = (n, lim) ->
+  l0 = true -> lim = true.
+Proof.
+  intros E Hl. destruct (counts_as_failure e); [|inversion E; subst; auto].
+  unfold count_failure in E. destruct (maxf c); inversion E; subst; auto. destruct (_ <=? _); auto.
+Qed.
+
+Lemma invF_consumer c s : invP s -> invF s -> invF (consumer_step c s).
+Proof.
+  intros HP HF. unfold consumer_step. destruct (cp s) eqn:Ecp.
+  - destruct (queue s) as [|e q] eqn:Eq.
+    + unfold invF, has_to_stop in *. cbn. rewrite Eq in HF. intros Hs. destruct (HF Hs) as (F1 & F2 & F3).
+      split; auto. split; auto. intros e He; discriminate.
+    + destruct (stop s) eqn:Es.
+      * unfold invF, has_to_stop. cbn. intros H; discriminate.
+      * unfold invF, has_to_stop in *. cbn. rewrite Es, Eq in *. intros Hs. destruct (HF Hs) as (F1 & F2 & F3).
+        cbn in F1. apply andb_true_iff in F1. destruct F1 as [He Hq]. apply negb_true_iff in He.
+        split; auto. split; auto. intros e0 H0. inversion H0; subst. exact He.
+  - destruct (if counts_as_failure e then count_failure c (counter s) (limit s) else (counter s, limit s)) as [n lim] eqn:E.
+    unfold invF, has_to_stop in *. cbn. intros Hs.
+    assert (Hold : stop s || limit s = false).
+    { destruct (stop s) eqn:Es.
+      - rewrite orb_true_r in Hs. cbn in Hs. discriminate.
+      - cbn. destruct (limit s) eqn:El; auto. rewrite (count_failure_limit_mono _ _ _ _ _ _ E eq_refl) in Hs.
+        rewrite orb_true_r in Hs. discriminate. }
+    destruct (HF Hold) as (F1 & F2 & F3). split; auto. split; auto.
+    intros e0 H0. destruct ((if is_interrupt e || stop s then true else stop s) || lim); discriminate.
+  - unfold invF, has_to_stop in *. cbn. intros Hs. destruct (HF Hs) as (F1 & F2 & F3). split; auto. split; auto.
+    intros e0 H0. destruct (forallb is_dead (workers s)); [destruct (drain_fix c)|]; discriminate.
+  - unfold invF, has_to_stop in *. cbn. intros Hs. destruct (HF Hs) as (F1 & F2 & F3). split; auto. split; auto.
+    intros e0 H0. destruct (queue s); discriminate.
+  - exact HF.
+Qed.
+
+Lemma invE_consumer c s : invP s -> invF s -> invE s -> invE (consumer_step c s).
+Proof.
+  intros HP HF (E1 & E2 & E3). unfold consumer_step. destruct (cp s) eqn:Ecp.
+  - unfold processed in E2. rewrite Ecp in E2.
+    destruct (queue s) as [|e q] eqn:Eq.
+    + unfold invE, processed. cbn [cp emitted cstatus executed]. split; [intros _; apply E1; discriminate|]. split; auto.
+    + destruct (stop s) eqn:Es.
+      * unfold invE, processed. cbn [cp emitted cstatus executed]. split; [intros H; exfalso; apply H; reflexivity|]. split; [|auto].
+        intros id st [H|H] Hne; [discriminate|]. exists INTERRUPTED. split; auto.
+        destruct st; cbn; try lia. exfalso; apply Hne; reflexivity.
+      * unfold invE, processed. cbn [cp emitted cstatus executed tl]. split; [intros _; apply E1; discriminate|]. split; auto.
+  - destruct (HP e Ecp) as [t Et]. unfold processed in E2. rewrite Ecp, Et in E2. cbn [tl] in E2.
+    assert (Hlow : low_status (cstatus s)) by (apply E1; discriminate).
+    destruct (if counts_as_failure e then count_failure c (counter s) (limit s) else (counter s, limit s)) as [n lim] eqn:E.
+    unfold invE, processed. cbn [cp emitted cstatus executed].
+    assert (Hproc : forall b : bool, match (if b then CDone else CGet) with CPost _ => tl (emitted s) | _ => emitted s end = e :: t).
+    { intros []; exact Et. }
+    rewrite Hproc.
+    destruct (is_interrupt e || stop s) eqn:Eint.
+    + (* interrupted *)
+      cbn [orb]. split; [intros H; exfalso; apply H; reflexivity|]. split; [|auto].
+      intros id st Hin Hne. exists INTERRUPTED. split; auto. destruct st; cbn; try lia. exfalso; apply Hne; reflexivity.
+    + apply orb_false_iff in Eint. destruct Eint as [Ei Es]. rewrite Es. cbn [orb].
+      split; [|split; [|auto]].
+      * (* still running: nobody asked to stop, so e is not an interruption event *)
+        intros Hrun. destruct lim eqn:El; [exfalso; apply Hrun; reflexivity|].
+        assert (Hts : has_to_stop s = false).
+        { unfold has_to_stop. rewrite Es. cbn. destruct (limit s) eqn:Els; auto.
+          pose proof (count_failure_limit_mono _ _ _ _ _ _ E eq_refl) as Hc. discriminate Hc. }
+        destruct (HF Hts) as (_ & _ & F3). specialize (F3 e Ecp).
+        destruct e; cbn; auto. destruct st; cbn in F3; try discriminate; destruct (cstatus s) as [[]|]; cbn in *; auto; lia.
+      * intros id st [H|H] Hne.
+        -- subst e. cbn. destruct st; try (exfalso; apply Hne; reflexivity);
+             destruct (cstatus s) as [[]|]; cbn in *; eexists; split; try reflexivity; cbn; lia.
+        -- destruct (E2 id st H Hne) as [cur [Ec Hr]]. rewrite Ec in *. cbn in Hlow.
+           destruct e; cbn; try (exists cur; split; auto; fail).
+           ++ exists ERROR. split; auto. cbn. lia.
+           ++ destruct st0; cbn; try (exists cur; split; auto; fail);
+                destruct cur; cbn in *; eexists; split; try reflexivity; cbn; lia.
+  - unfold processed in E2. rewrite Ecp in E2. unfold invE, processed. cbn [cp emitted cstatus executed].
+    split; [intros _; apply E1; discriminate|]. split; auto.
+    destruct (forallb is_dead (workers s)); [destruct (drain_fix c)|]; auto.
+  - unfold processed in E2. rewrite Ecp in E2. unfold invE, processed. cbn [cp emitted cstatus executed].
+    split; [intros _; apply E1; discriminate|]. split; auto. destruct (queue s); auto.
+  - unfold invE. rewrite Ecp. split; auto.
+Qed.
+
+Lemma invE_worker c s i w : invE s -> invE (worker_step c s i w).
+Proof.
+  intros (E1 & E2 & E3). destruct (worker_step_flags c s i w) as (_ & _ & F3).
+  assert (F : emitted (worker_step c s i w) = emitted s /\ cstatus (worker_step c s i w) = cstatus s /\
+              executed (worker_step c s i w) = executed s).
+  { destruct w; cbn [worker_step]; auto.
+    - destruct (ops s); auto. destruct (build_err o); auto.
+    - destruct (has_to_stop s); auto.
+    - destruct c0; auto. destruct (cof c); auto.
+    - destruct script; auto. }
+  destruct F as (F4 & F5 & F6). unfold invE, processed. rewrite F3, F4, F5, F6. split; auto.
+Qed.
+
+Definition invK (s : state) : Prop := cstatus s <> Some SKIP.
+
+Lemma invK_step c s l : invK s -> invK (step c s l).
+Proof.
+  intros HK. destruct l; cbn [step].
+  - unfold consumer_step. destruct (cp s); auto.
+    + destruct (queue s); auto. destruct (stop s); [intros H; discriminate H | auto].
+    + destruct (if counts_as_failure e then count_failure c (counter s) (limit s) else (counter s, limit s)) as [n lim].
+      unfold invK in *. cbn. destruct (is_interrupt e || stop s); [intros H; discriminate H|].
+      destruct (cstatus s) as [cur|] eqn:Ec.
+      * assert (Hcur : cur <> SKIP) by (intros ->; apply HK; reflexivity).
+        destruct e; cbn; try congruence. destruct st; cbn; try congruence; destruct cur; cbn; congruence.
+      * destruct e; cbn; try congruence. destruct st; cbn; congruence.
+  - destruct (nth_error (workers s) i) eqn:Ei; auto.
+    assert (F : cstatus (worker_step c s i w) = cstatus s).
+    { destruct w; cbn [worker_step]; auto.
+      - destruct (ops s); auto. destruct (build_err o); auto.
+      - destruct (has_to_stop s); auto.
+      - destruct c0; auto. destruct (cof c); auto.
+      - destruct script; auto. }
+    unfold invK. rewrite F. exact HK.
+  - exact HK.
+Qed.
+
+Definition invFE (s : state) : Prop := invP s /\ wforall st_calm (workers s) /\ invF s /\ invE s.
+
+Lemma invFE_step c s l : invFE s -> invFE (step c s l).
+Proof.
+  intros (HP & HC & HF & HE). split; [apply invP_step; auto|]. destruct l; cbn [step].
+  - split; [|split; [apply invF_consumer; auto | apply invE_consumer; auto]].
+    unfold consumer_step. destruct (cp s); auto.
+    + destruct (queue s); auto. destruct (stop s); auto.
+    + destruct (if counts_as_failure e then count_failure c (counter s) (limit s) else (counter s, limit s)); auto.
+  - destruct (nth_error (workers s) i) eqn:Ei; [|split; auto].
+    split; [apply st_calm_worker; auto|]. split; [apply invF_worker; auto | apply invE_worker; auto].
+  - split; auto. split; [|exact HE]. unfold invF, has_to_stop. cbn. intros H; discriminate.
+Qed.
+
+Lemma invFE_init n os : invFE (init n os).
+Proof.
+  split; [apply invP_init|]. split; [apply wforall_repeat; exact I|]. split.
+  - intros _. cbn. split; auto. split; [apply wforall_repeat; exact I|]. intros e H; discriminate.
+  - split; [intros _; exact I|]. split; [intros id st []|]. intros H; exfalso; apply H; reflexivity.
+Qed.
+
+Lemma status_at_least_worst c sched n os :
+  let s := run c sched (init n os) in
+  cp s = CDone ->
+  forall id st, In (ScFinish id st) (trace s) -> st <> SKIP ->
+    final_status s <> SKIP /\ srank st <= srank (final_status s).
+Proof.
+  intros s Hcp id st Hin Hne.
+  assert (H : invFE s) by (apply run_inv; [intros; apply invFE_step; auto | apply invFE_init]).
+  destruct H as (_ & _ & _ & (E1 & E2 & E3)).
+  unfold processed in E2. rewrite Hcp in E2. unfold trace in Hin. apply in_rev in Hin.
+  destruct (E2 id st Hin Hne) as [cur [Ec Hr]].
+  assert (Hex : executed s = true) by (apply E3; intros H; rewrite H in Hin; destruct Hin).
+  assert (HK : invK s) by (apply run_inv; [intros; apply invK_step; auto | intros H; discriminate H]).
+  unfold final_status. rewrite Hex, Ec. split; auto.
+  intros ->. apply HK. exact Ec.
+Qed.
